@@ -45,7 +45,7 @@ ID = 'C13'
 LEVEL = 'exploration'
 ISOLATE = True
 BUDGET = {'quick': (4, 500), 'thorough': (16, 1500)}
-RULE = ('target cases: class shape or callable kind (35 kinds, generated as source text and '
+RULE = ('target cases: class shape or callable kind (40 kinds, generated as source text and '
         'exec\'ed in real modules) x API (configurable/register/external_configurable) x '
         'decorator form (bare, call, name, name+module, module, dotted name, dotted name+module) '
         'x scope ("" / s / s/t) x Hypothesis-generated signature (0-2 positional, 0-2 defaulted, '
@@ -59,7 +59,8 @@ RULE = ('target cases: class shape or callable kind (35 kinds, generated as sour
         'put under a full name held by a different object, unknown allow/deny names, both '
         'lists -- the three list faults also as a SECOND registration of an object that is already '
         'validly registered under that very full name). interactive cases: exit in {normal, exception after / before the '
-        're-registration, explicit enter/exit} x scope x which scoped access paths touch the name '
+        're-registration, explicit enter/exit} x stray exit_interactive_mode() calls while the mode '
+        'is off (before everything / after the block) x scope x which scoped access paths touch the name '
         'before the re-registration (all five access paths are checked after it); rejected '
         'registrations of classes with Gin-registered methods also probe the method\'s selectors '
         'and function. Non-trivial (target) = (class shape other than '
@@ -79,6 +80,11 @@ ASSUMPTIONS = [
     'functools.partial objects have no __name__; lambdas must be given a name)',
     '"rejected" = any Exception subclass is raised (the class is recorded as a label); for a '
     'duplicate full name and for both lists the documented ValueError is required',
+    'exit_interactive_mode() called while the mode is off leaves it off (one is certainly not '
+    'inside interactive mode then); enter twice / exit once is not generated (ambiguous like '
+    'nesting)',
+    'for callables that Python re-creates on every attribute access (bound methods, bound '
+    'builtins, method wrappers) "the original object" includes a re-created equal object',
     'nested interactive blocks are not generated (whether the outer block is still interactive '
     'after an inner one exits is not stated); injection into registered *methods* through a '
     'class version is not asserted (the statement only says such instances need not be of the '
@@ -171,14 +177,27 @@ KINDS = {
     'partial': (False, 'full', False, False),
     'builtin_sum': (False, 'builtin', True, False),
     'builtin_pow': (False, 'builtin', True, False),
+    # callables that Python re-creates on every attribute access (equal, same hash, not
+    # identical): the module also defines _fresh(), and lookup by object is additionally made
+    # through such a re-created equal object
+    'bound_method': (False, 'full', True, False),
+    'methwrap_call': (False, 'full', True, False),      # fn.__call__, a method-wrapper
+    'bound_builtin': (False, 'builtin', True, False),   # '{a}|{b}'.format
+    # falsy objects: a callable instance whose class defines __len__ -> 0 (it has a __name__)
+    # and a class whose metaclass defines __len__ -> 0
+    'callobj_falsy': (False, 'full', True, False),
+    'falsy_class': (True, 'full', True, False),
     'methwrap': (False, 'none', True, False),
     'slotwrap': (False, 'none', True, False),
 }
 CLASS_KINDS = [k for k, v in KINDS.items() if v[0]]
 CALLABLE_KINDS = [k for k, v in KINDS.items() if not v[0]]
-BUILTIN = {  # kind -> (source expr, call args, bindable name, value per scope level)
-    'builtin_sum': ('sum', [[1, 2, 3]], 'start', [10, 100, 1000]),
-    'builtin_pow': ('pow', [2, 10], 'mod', [7, 5, 3]),
+BUILTIN = {  # kind -> (source, call args, bindable name, value per scope level, caller kwargs)
+    'builtin_sum': ('K = sum\n', [[1, 2, 3]], 'start', [10, 100, 1000], {}),
+    'builtin_pow': ('K = pow\n', [2, 10], 'mod', [7, 5, 3], {}),
+    'bound_builtin': ("_TEMPLATE = '{a}|{b}'\nK = _TEMPLATE.format\n\n"
+                      'def _fresh():\n  return _TEMPLATE.format\n',
+                      [], 'a', ['x0', 'x1', 'x2'], {'b': 'call:b'}),
 }
 RICH_SIG = {'pos': 1, 'dflt': 2, 'varargs': True, 'kwo': 1, 'kwod': 1, 'varkw': True}
 
@@ -357,9 +376,22 @@ def build_source(kind, sig, doc, tag=False):
     body = (f'def _base({s(sig, "p")}):\n{d}  return dict({r}, p=p)\n\n'
             "K = functools.partial(_base, 'P')\n")
   elif kind in BUILTIN:
-    body = f'K = {BUILTIN[kind][0]}\n'
+    body = BUILTIN[kind][0]
   elif kind == 'methwrap':
-    body = 'K = (7).__add__\n'
+    body = 'K = (7).__add__\n\ndef _fresh():\n  return (7).__add__\n'
+  elif kind == 'bound_method':
+    body = (f'class _Owner:\n  def K({s(sig, "self")}):\n{doc_text(doc, "    ")}'
+            f'    return {r}\n\n_owner = _Owner()\nK = _owner.K\n\n'
+            'def _fresh():\n  return _owner.K\n')
+  elif kind == 'methwrap_call':
+    body = (f'def _inner({s(sig)}):\n{d}  return {r}\n\nK = _inner.__call__\n\n'
+            'def _fresh():\n  return _inner.__call__\n')
+  elif kind == 'callobj_falsy':
+    body = (f"class _Callable:\n{d}  __name__ = 'K'\n  def __len__(self):\n    return 0\n"
+            f'  def __call__({s(sig, "self")}):\n    return {r}\n\nK = _Callable()\n')
+  elif kind == 'falsy_class':
+    body = ('class _FalsyMeta(type):\n  def __len__(cls):\n    return 0\n\n'
+            f'class K(metaclass=_FalsyMeta):\n{d}{init}')
   elif kind == 'slotwrap':
     body = 'K = int.__add__\n'
   else:
@@ -491,7 +523,7 @@ def plan_bindings(kind, sig, scope, bind, extra_kw):
   if cap == 'none':
     return plan
   if cap == 'builtin':
-    _, _, pname, values = BUILTIN[kind]
+    _, _, pname, values, _ = BUILTIN[kind]
     for _, level in bind or [[0, 0]]:
       lv = level % len(prefixes)
       plan[prefixes[lv]][pname] = values[lv]
@@ -521,7 +553,10 @@ def caller_args(kind, sig, bound, style):
   """Arguments a caller must give so that, with `bound` supplied by keyword, the call is
   complete; bound parameters are never supplied by the caller."""
   if kind in BUILTIN:
-    return list(BUILTIN[kind][1]), {}
+    kwargs = dict(BUILTIN[kind][4])
+    if kind == 'bound_builtin' and 'a' not in bound:
+      kwargs['a'] = 'call:a'           # the template needs both fields
+    return list(BUILTIN[kind][1]), kwargs
   if kind == 'methwrap':
     return [5], {}
   if kind == 'slotwrap':
@@ -670,6 +705,16 @@ def check_target(case):
       gin.parse_config(f'c13probe.c13consumer.x = @{scoped_sel}' + ('()' if evaluate else ''))
       return _consumer()
     versions.append(('@reference', lambda: via_ref(False), ''))
+    fresh_fn = getattr(mod_a, '_fresh', None)
+    if fresh_fn is not None:
+      # the "original object" a user holds for a bound method / method wrapper is whatever
+      # `obj.attr` evaluates to now: equal to, but not identical with, what was registered
+      fresh = fresh_fn()
+      if fresh is orig or fresh != orig:
+        raise OutOfDomain('re-created object is identical or unequal')
+      versions.append(('get_configurable(re-created equal original)',
+                       lambda: gin.get_configurable(fresh_fn()), active))
+      labels.add('lookup-by-re-created-equal-object')
 
     for how, getter, call_scope in versions:
       try:
@@ -1075,6 +1120,11 @@ def check_interactive(case):
   names = sorted({s for f, _, _ in priors for s in suffixes(f)} | set(suffixes(full)))
   objects = [(tag, f) for _, f, tag in priors]
   require(_interactive_is_off(), 'harness', 'interactive mode on at start')
+  stray = int(case.get('stray', 0)) % 4
+  if stray & 1:
+    # a defensive exit_interactive_mode() while the mode is off: still not inside interactive mode
+    gin.exit_interactive_mode()
+    labels.add('stray-exit-before')
 
   def rejected(mod, when):
     before = probe(names, objects)
@@ -1179,6 +1229,9 @@ def check_interactive(case):
       labels.add('scoped-access-before-and-after-re-registration')
   else:
     resolves_to(first, 'after an interactive block without registration')
+  if stray & 2:
+    gin.exit_interactive_mode()
+    labels.add('stray-exit-after-block')
   # the mode has ended: a third object under the same name is rejected again
   rejected(third, 'after the block (' + exit_kind + ')')
   require(_interactive_is_off(), 'interactive-mode-not-ended', exit_kind)
@@ -1250,7 +1303,8 @@ def _interactive_case(draw):
   return {'kind': 'interactive', 'target': draw(st.sampled_from(INVALID_TARGETS)),
           'api': draw(st.sampled_from(APIS)), 'api2': draw(st.sampled_from(APIS)),
           'exit': draw(st.sampled_from(EXITS)), 'prior': draw(st.integers(0, 3)),
-          'scope': draw(st.sampled_from(SCOPES[1:])), 'touch': draw(st.integers(0, 7))}
+          'scope': draw(st.sampled_from(SCOPES[1:])), 'touch': draw(st.integers(0, 7)),
+          'stray': draw(st.integers(0, 3))}
 
 
 def strategy():
@@ -1281,7 +1335,8 @@ def sweep_cells(tier):
 def sweep_forms(tier):
   del tier
   cases = []
-  for kind in ('fn', 'wrapped_fn', 'init', 'nested', 'meta', 'callobj', 'namedtuple', 'methwrap'):
+  for kind in ('fn', 'wrapped_fn', 'init', 'nested', 'meta', 'callobj', 'namedtuple', 'methwrap',
+               'bound_method', 'callobj_falsy', 'falsy_class'):
     for api, form in itertools.product(APIS, forms_for(kind)):
       sig = norm_sig(kind, RICH_SIG)
       cases.append({'kind': 'target', 'shape': kind, 'api': api, 'form': form, 'scope': 's',
@@ -1317,7 +1372,8 @@ def sweep_invalid(tier):
 def sweep_interactive(tier):
   del tier
   cases = [{'kind': 'interactive', 'target': t, 'api': a1, 'api2': a2, 'exit': e, 'prior': 1,
-            'scope': 's/t' if t == 'meta' else 's', 'touch': 7 if e != 'explicit' else 1}
+            'scope': 's/t' if t == 'meta' else 's', 'touch': 7 if e != 'explicit' else 1,
+            'stray': (APIS.index(a1) + EXITS.index(e)) % 4}
            for t, a1, a2, e in itertools.product(['fn', 'init', 'meta', 'callobj', 'wrapped_fn',
                                                   'reg_method'],
                                                  APIS, APIS,
